@@ -347,6 +347,14 @@ def multibyte_keys(r):
     return mb, mb and not NONASCII.search(unhex(r["msg"]))
 
 
+def wellformed(b):
+    try:
+        b.decode("utf8")
+        return True
+    except UnicodeDecodeError:
+        return False
+
+
 def run_logfmt_rows(ck, cases, label):
     """the logfmt stage's own code (HandleLogfmt: sanitizeLabel on every key, the field table of `| logfmt l="key"`) =
     model/InternalJson.v over the pairs of the decoder kr/logfmt"""
@@ -378,13 +386,14 @@ def run_logfmt_rows(ck, cases, label):
                       "line": unhex(r["msg"]).decode("utf8", "replace"), "line_hex": r["msg"], "query": '{app="x"} | logfmt' + (" " + ", ".join('%s=<path>' % p["label"] for p in r.get("params") or []) if r.get("params") else ""),
                       "params": r.get("params"), "observed_labels": r.get("kv"), "pairs_of_the_decoder": [[unhex(k).decode("utf8", "replace"), unhex(x).decode("utf8", "replace")] for k, x in r.get("pairs") or []],
                       "replay": "ParserPlanner{Op: logfmt, ParameterNames/Values from params} on the single line: harness inteng --cases with {\"query\": ..., \"in\": [[{\"msg\": line_hex, \"labels\": {}}]]}"}, no_input=not v)
-    h = ck.extra.setdefault("logfmt_rows", {"rows": 0, "with_params": 0, "refused_by_decoder": 0, "multibyte_key": 0, "needs_sanitising": 0})
+    h = ck.extra.setdefault("logfmt_rows", {"rows": 0, "with_params": 0, "refused_by_decoder": 0, "multibyte_key": 0, "needs_sanitising": 0, "illformed_utf8_key": 0})
     h["rows"] += len(rows)
     for _, r in rows:
         h["with_params"] += bool(r.get("params"))
         h["refused_by_decoder"] += not r.get("pairs_ok")
         h["multibyte_key"] += multibyte_keys(r)[0]
         h["needs_sanitising"] += any(re.search(rb"[^a-zA-Z0-9_]", unhex(k)) for k, _ in r.get("pairs") or [])
+        h["illformed_utf8_key"] += any(not wellformed(unhex(k)) for k, _ in r.get("pairs") or [])
 
 
 def jdepth(n):
